@@ -151,16 +151,24 @@ class ShapeBase:
 
 @dataclass
 class ShapeBaseMapping(AlternativeMapping[ShapeBase]):
+    """stores `name` under another field name: a subclass DAO has to get it back through the parent mapping"""
     uid: int
-    name: str
+    label: str
     ports: List[Port]
 
     @classmethod
     def create_instance(cls, obj: ShapeBase) -> Self:
-        return cls(obj.uid, obj.name, obj.ports)
+        return cls(obj.uid, "L:" + obj.name, obj.ports)
 
     def create_from_dao(self) -> ShapeBase:
-        return ShapeBase(self.uid, self.name, self.ports)
+        return ShapeBase(self.uid, self.label[2:], self.ports)
+
+
+@dataclass(eq=False)
+class Sheet:
+    """several shapes (instances of the alternatively mapped class and of its normally mapped subclass) in one graph"""
+    uid: int = 0
+    shapes: List[ShapeBase] = field(default_factory=list)
 
 
 @dataclass(eq=False)
@@ -169,5 +177,5 @@ class Circle(ShapeBase):
     center: Optional[Vec] = None
 
 
-VERIF_CLASSES = [Vec, Pin, Item, Holder, Base0, Mid, Leaf, Port, ShapeBase, Circle]
+VERIF_CLASSES = [Vec, Pin, Item, Holder, Base0, Mid, Leaf, Port, ShapeBase, Circle, Sheet]
 VERIF_ORMATIC = {"alternative_mappings": [VecMapping, PinMapping, ShapeBaseMapping], "type_mappings": {Money: MoneyType}}
